@@ -452,8 +452,15 @@ def pick_types(w: World, rng, n):
 def conv_session(v: Verdict, name: str, flags: dict, n_worlds: int, profile: dict, oracles: set, with_model: bool = True):
     rng = random.Random(v.seed * 7919 + sum(map(ord, name)))
     S = Session(v, name, flags)
-    for wi in range(n_worlds):
-        w = L.gen_world(rng, profile)
+    grid = with_model and not name.endswith(tuple(f"-search{k}" for k in range(1, 9)))
+    for wi in range(n_worlds + (1 if grid else 0)):
+        is_grid = wi == n_worlds
+        if is_grid:
+            # one more world, always the same one, for the deterministic grid of depth-2 type expressions (lane_conv.grid_types)
+            grng = random.Random(20261001)
+            w = L.gen_world(grng, dict(profile, max_classes=3))
+        else:
+            w = L.gen_world(rng, profile)
         tables = Tables(w)
         cases = []
         S.hist["worlds"] += 1
@@ -465,17 +472,20 @@ def conv_session(v: Verdict, name: str, flags: dict, n_worlds: int, profile: dic
             if (cfg, forbid) not in pool:
                 pool[(cfg, forbid)] = L.make_converter(*cfg, forbid)
             return pool[(cfg, forbid)]
-        for t in pick_types(w, rng, rng.randint(2, 3)):
+        type_list = L.grid_types(w) if is_grid else pick_types(w, rng, rng.randint(2, 3))
+        if is_grid:
+            S.hist["grid_types"] = len(type_list)
+        for ti_, t in enumerate(type_list):
             S.hist["types"] += 1
             L.type_kinds(w, t, S.hist["kinds"])
             S.hist["max_depth"] = max(S.hist["max_depth"], L.type_depth(t))
-            for _ in range(2):
+            for _ in range(1 if is_grid else 2):
                 try:
-                    x = L.gen_value(w, t, 3)
+                    x = L.gen_value(w, t, 2 if is_grid else 3)
                 except RecursionError:
                     continue
                 S.hist["values"] += 1
-                cfgs = rng.sample(CFGS, 4)
+                cfgs = [CFGS[ti_ % len(CFGS)], CFGS[(ti_ + 3) % len(CFGS)]] if is_grid else rng.sample(CFGS, 4)
                 outs = {}
                 for cfg in cfgs:
                     full, dv, strat = cfg
